@@ -374,3 +374,89 @@ contract(L + "ProfileFeatureCounter.is_valid", {"assignment": "opt[rec:ReadAssig
                                                                "gene_info": rng.choice([None, {"__rec__": "GeneInfoP", "exon_property_map": [], "intron_property_map": []}]),
                                                                "read_group": "NA"}])} for _ in range(n)),
          canary="result == (assignment is not None)")
+
+
+# ---- one row per annotated feature: pipeline run where the reads of one gene form two separate islands ------------------------------------------
+def _islands_inputs(d):
+    """gene synI (+) in the gene-free stretch of the bundled reference: T1 exons A,B,C,D; T2 exons A,D (its intron spans B and C);
+    3 reads over A-B and 2 reads over C-D: two read islands that do not overlap each other"""
+    import gzip, os
+    import pysam
+    seq = "".join(l.strip() for l in gzip.open(os.path.join(d, "chr9.4M.fa.gz"), "rt") if not l.startswith(">")).upper()
+    inp = pysam.AlignmentFile(os.path.join(d, "chr9.4M.ont.sim.polya.bam"))
+    tid = inp.get_tid("chr9")
+    o = 3041000
+    A, B, C, D = (o + 101, o + 300), (o + 501, o + 700), (o + 3001, o + 3200), (o + 3401, o + 3600)
+    gtf = ["chr9\tsyn\tgene\t%d\t%d\t.\t+\t.\tgene_id \"synI\";" % (A[0], D[1])]
+    for t, ex in (("synI.t1", [A, B, C, D]), ("synI.t2", [A, D])):
+        gtf.append("chr9\tsyn\ttranscript\t%d\t%d\t.\t+\t.\tgene_id \"synI\"; transcript_id \"%s\";" % (ex[0][0], ex[-1][1], t))
+        for a, b in ex:
+            gtf.append("chr9\tsyn\texon\t%d\t%d\t.\t+\t.\tgene_id \"synI\"; transcript_id \"%s\";" % (a, b, t))
+    open(os.path.join(d, "isl.gtf"), "w").write("\n".join(gtf) + "\n")
+    recs = []
+    for name, ex, n in (("ab", [A, B], 3), ("cd", [C, D], 2)):
+        for k in range(n):
+            a = pysam.AlignedSegment(inp.header)
+            a.query_name, a.flag, a.reference_id, a.reference_start, a.mapping_quality = "%s_%d" % (name, k), 0, tid, ex[0][0] - 1, 60
+            cig, s_ = [], ""
+            for i, (x, y) in enumerate(ex):
+                if i:
+                    cig.append((3, x - ex[i - 1][1] - 1))
+                cig.append((0, y - x + 1)); s_ += seq[x - 1:y]
+            a.cigartuples, a.query_sequence = cig, s_
+            a.query_qualities = pysam.qualitystring_to_array("I" * len(s_))
+            a.set_tag("NM", 0)
+            recs.append(a)
+    with pysam.AlignmentFile(os.path.join(d, "isl.bam"), "wb", template=inp) as out:
+        for a in sorted(recs, key=lambda x: x.reference_start):
+            out.write(a)
+    pysam.index(os.path.join(d, "isl.bam"))
+    return "isl.bam", "isl.gtf"
+
+
+def _islands_run():
+    import os, shutil
+    from contracts import c_novel
+    d, p = c_novel._run_pipeline(["--count_exons", "--no_model_construction"], True, _islands_inputs)
+    try:
+        if p.returncode != 0:
+            return None, "isoquant exited %d: %s" % (p.returncode, p.stderr[-300:])
+        rows = {}
+        for kind in ("exon", "intron"):
+            for line in open(os.path.join(d, "out", "S", "S.%s_counts.tsv" % kind)):
+                if line.startswith("#") or line.startswith("chr\t"):
+                    continue
+                f = line.rstrip("\n").split("\t")
+                rows.setdefault((kind, f[0], int(f[1]), int(f[2]), f[3], f[-3]), []).append((int(float(f[-2])), int(float(f[-1]))))
+    finally:
+        shutil.rmtree(d, ignore_errors=True)
+    return rows, None
+
+
+def replay_islands(d):
+    rows, err = _islands_run()
+    key = tuple(d["inputs"]["feature"])
+    n = len((rows or {}).get(key, []))
+    return n <= 1, "feature %s is reported in %d row(s): %s" % (key, n, (rows or {}).get(key))
+
+
+@bounded("C13.one_row_per_feature", ["C13"], note="one pipeline run (--count_exons) on a synthetic gene whose reads form two islands that do not overlap "
+         "each other: every annotated exon / intron is reported in at most one row per group, holding the counts of all processed reads")
+def c13_islands(tier, rng):
+    rows, err = _islands_run()
+    if rows is None:
+        return {"cases": 1, "bound": "1 pipeline run", "error": err}
+    o = 3041000
+    islands = [(o + 101, o + 700), (o + 3001, o + 3600)]
+    viol = []
+    for key, vals in sorted(rows.items()):
+        if len(vals) > 1:
+            reach = sum(1 for a, b in islands if not (b < key[2] or a > key[3]))
+            viol.append({"obligation": "C13.one_row_per_feature.%s_%d_%d" % (key[0], key[2] - o, key[3] - o),
+                         "inputs": {"feature": list(key), "rows": len(vals), "counts": vals, "islands_reaching_feature": reach},
+                         "observed": "%s %s:%d-%d is reported in %d rows with (include, exclude) = %s" % (key[0], key[1], key[2], key[3], len(vals), vals),
+                         "required": "one row per annotated feature and group, holding the counts over all processed reads",
+                         "replay_call": "contracts.c_profiles:replay_islands"})
+    if not rows:
+        viol.append({"obligation": "C13.one_row_per_feature.nontrivial", "inputs": None, "observed": "no count rows", "required": "rows", "undecided": True})
+    return {"cases": len(rows), "bound": "1 pipeline run, 5 reads in 2 islands", "violations": viol, "samples": [{"rows": len(rows)}]}
